@@ -146,14 +146,17 @@ class ConstructPipeline(RewritePattern):
                         return
 
         # buffers are told apart by their SSA value: two different values that name the same memory (views or casts
-        # of one allocation, taken outside of the loop) would not be double buffered together
+        # of one allocation, taken outside of the loop or among the index operations) would not be double buffered
+        # together, and two tiles of one array may overlap from one iteration to the next
         sources: dict[SSAValue, SSAValue] = {}
         for stage in stages:
             for operation in stage:
                 for operand in operation.operands:
-                    if isinstance(operand.type, MemRefType) and not op.body.block.is_ancestor(operand.owner):
-                        if sources.setdefault(get_view_source(operand), operand) is not operand:
-                            return
+                    if isinstance(operand.type, MemRefType):
+                        source = get_view_source(operand)
+                        if not op.body.block.is_ancestor(source.owner):
+                            if sources.setdefault(source, operand) is not operand:
+                                return
 
         # iteration i works on copy (i mod 2) of a buffer that is passed on between two stages: behind the
         # loop the original allocation only holds the data of the last iteration for odd trip counts
